@@ -31,6 +31,10 @@ impl StateMachine<'_> {
     /// Check for the old mode|new mode lines and cache their info for later use.
     pub fn handle_diff_header_mode_line(&mut self) -> std::io::Result<bool> {
         let mut handled_line = false;
+        if self.line.starts_with("old mode ") || self.line.starts_with("new mode ") {
+            // (what is still buffered of a hunk comes before this line)
+            self.painter.paint_buffered_minus_and_plus_lines();
+        }
         if let Some(line_suf) = self.line.strip_prefix("old mode ") {
             self.state = State::DiffHeader(DiffType::Unified);
             if self.should_handle() && !self.config.color_only {
@@ -112,6 +116,8 @@ impl StateMachine<'_> {
         if !self.test_diff_header_minus_line() {
             return Ok(false);
         }
+        // (a hunk header may still be waiting for the first line of its hunk)
+        self.emit_pending_hunk_header_line()?;
 
         let (mut path_or_mode, file_event) =
             parse_diff_header_line(&self.line, self.git_paths_have_prefixes());
@@ -198,6 +204,8 @@ impl StateMachine<'_> {
         if !self.test_diff_header_file_operation_line() {
             return Ok(false);
         }
+        // (what is still buffered of a hunk comes before this line)
+        self.painter.paint_buffered_minus_and_plus_lines();
         let mut handled_line = false;
         let (_mode_info, file_event) =
             parse_diff_header_line(&self.line, self.source == Source::GitDiff);
